@@ -36,8 +36,10 @@ def render_task(ns: str, name: str, tdef: dict, ver: int, extra_opts: Optional[d
         opts.append(f"limits={units!r}")
     if tdef.get("scope", "BACKEND") != "BACKEND":
         opts.append(f'cache_scope="{tdef["scope"]}"')
-    if tdef.get("sh"):
+    if tdef.get("sh") or tdef.get("as"):
         opts.append('check_valid="shallow"')
+    if tdef.get("as"):
+        opts.append("cache=True")   # async tasks must state their cache option
     for k, val in (tdef.get("opts") or {}).items():
         opts.append(f"{k}={val!r}")
     for k, val in (extra_opts or {}).items():
@@ -45,7 +47,9 @@ def render_task(ns: str, name: str, tdef: dict, ver: int, extra_opts: Optional[d
     if v["kind"] == "noexec":
         opts.append('executor="no_such_executor"')
     takes_h = bool(tdef.get("h"))
-    lines = [f"@task({', '.join(opts)})", f"def {name}({'h, ' if takes_h else ''}x):"]
+    # "as": an async def task (no single reduction for it; its lookups are ultimate reductions)
+    kw = "async def" if tdef.get("as") else "def"
+    lines = [f"@task({', '.join(opts)})", f"{kw} {name}({'h, ' if takes_h else ''}x):"]
     lines.append(f"    # version {ver}")
     if v["kind"] in ("leaf", "noexec"):
         lines.append(f"    return x + {v['add']}")
@@ -132,13 +136,14 @@ def normalize(prog: dict) -> dict:
         t.setdefault("h", 0)
         t.setdefault("scope", "BACKEND")
         t.setdefault("sh", 0)
+        t.setdefault("as", 0)
         t.setdefault("units", {})
         for v in t["vers"]:
             for c in v["children"]:
                 c.setdefault("g", 0)
                 guarded = guarded or bool(c["g"])
     # the recover task of guarded (catch) children is always declared, so that TLC sees one shape
-    prog["tasks"].setdefault("rec", {"units": {}, "h": 0, "scope": "BACKEND", "sh": 0,
+    prog["tasks"].setdefault("rec", {"units": {}, "h": 0, "scope": "BACKEND", "sh": 0, "as": 0,
                                      "vers": [{"kind": "const", "add": -7, "children": []}]})
     prog["tnames"] = sorted(prog["tasks"])
     return prog
